@@ -831,3 +831,10 @@ impl Path {
         }
     }
 }
+
+/// A path whose only entry is a recorded Spurious branch with the given choice, positioned at it.
+pub(crate) fn path_with_spurious(spur: bool) -> ManuallyDrop<Path> {
+    let mut branches: object::Store<Entry> = object::Store::with_capacity(4);
+    crate::rt::object::verif_kani::store_entries_mut(&mut branches).push(Entry::Spurious(Spurious { spur, exploring: true }));
+    ManuallyDrop::new(Path { preemption_bound: None, pos: 0, branches, exploring: true, skipping: false, exploring_on_start: true })
+}
